@@ -113,6 +113,7 @@ type Observed struct {
 	Em      *obs.Emitted
 	GoBytes []byte
 	JSON    []byte // exported operations, when requested
+	ImportLog [][2]string // (package path, alias) as chosen by addImportFor, in call order
 }
 
 func opNames(defs []*gen.Def) map[string]bool {
@@ -129,7 +130,7 @@ func Observe(dir string, c *Case) *Observed {
 	os.RemoveAll(dir)
 	os.MkdirAll(dir, 0o755)
 	oc := core.RunGenerate(dir, c.Program())
-	o := &Observed{}
+	o := &Observed{ImportLog: oc.ImportLog}
 	switch {
 	case oc.Panicked:
 		o.Class, o.Err = "PANIC", oc.PanicVal
@@ -243,6 +244,37 @@ func WriteCases(outDir, name string, terms []string, shard int) ([]string, error
 		sb.WriteString("Definition cases : list conv_case := [\n" + strings.Join(terms[k*shard:end], ";\n") + "\n].\n")
 		sb.WriteString("Definition MISMATCH := Eval vm_compute in conv_mismatches cases.\nPrint MISMATCH.\n")
 		fn := fmt.Sprintf("%s/cases_%s_%d.v", outDir, name, k)
+		if err := os.WriteFile(fn, []byte(sb.String()), 0o644); err != nil {
+			return nil, err
+		}
+		files = append(files, fn)
+	}
+	return files, nil
+}
+
+// ImpCaseTerm renders the imp_case for Corr/Impcorr.v.
+func ImpCaseTerm(id int, log [][2]string) string {
+	var items []string
+	for _, e := range log {
+		items = append(items, "("+strs(e[0])+", "+strs(e[1])+")")
+	}
+	return fmt.Sprintf("{| ic_id := %d; ic_log := [%s] |}", id, strings.Join(items, "; "))
+}
+
+// WriteImpCases: the import logs of one run, for the in-kernel replay of the alias allocation.
+func WriteImpCases(outDir string, terms []string, shard int) ([]string, error) {
+	var files []string
+	for k := 0; k*shard < len(terms); k++ {
+		end := (k + 1) * shard
+		if end > len(terms) {
+			end = len(terms)
+		}
+		var sb strings.Builder
+		sb.WriteString("From Verif Require Import Base.Str Gen.Imports Corr.Impcorr.\n")
+		sb.WriteString("Definition cases : list imp_case := [\n" + strings.Join(terms[k*shard:end], ";\n") + "\n].\n")
+		sb.WriteString("Definition MISMATCH := Eval vm_compute in imp_mismatches cases.\nPrint MISMATCH.\n")
+		sb.WriteString("Definition SPECFAIL := Eval vm_compute in imp_specfails cases.\nPrint SPECFAIL.\n")
+		fn := fmt.Sprintf("%s/cases_imp_%d.v", outDir, k)
 		if err := os.WriteFile(fn, []byte(sb.String()), 0o644); err != nil {
 			return nil, err
 		}
